@@ -169,7 +169,7 @@ func c17R2(c *Ctx) {
 		})
 		return best
 	}
-	fSync := func(a *Atom) bool { return a.Rel == "" && a.Val && a.B.Kind == "field" && strings.Contains(strings.ToLower(a.B.Field.Name()), "sync") }
+	fSync := func(a *Atom) bool { return a.Rel == "" && a.Val && a.B.Kind == "field" && strings.Contains(strings.ToLower(cn(a.B.Field)), "sync") }
 	nNil := 0
 	okAll := true
 	report := func(construct, msg string) {
@@ -243,7 +243,7 @@ func c17R2(c *Ctx) {
 			report("index-before-data", "the header (index) line is written before the message bytes: a process death between the two writes leaves an index entry whose bytes were never written; after restart the same number is saved again at that offset and iteration returns torn bytes for the stale entry")
 		}
 		notSync := func(a *Atom) bool {
-			return a.Rel == "" && !a.Val && a.B.Kind == "field" && strings.Contains(strings.ToLower(a.B.Field.Name()), "sync")
+			return a.Rel == "" && !a.Val && a.B.Kind == "field" && strings.Contains(strings.ToLower(cn(a.B.Field)), "sync")
 		}
 		_ = fSync
 		if !cond.Implies(notSync) {
@@ -378,7 +378,7 @@ func c17R3(c *Ctx) {
 			}
 			// sync under the sync flag, and the nil return after it requires sync nil
 			d := p.ReachCond(instrs[2].Block())
-			if !d.Implies(func(a *Atom) bool { return a.Rel == "" && a.Val && a.B.Kind == "field" && strings.Contains(strings.ToLower(a.B.Field.Name()), "sync") }) {
+			if !d.Implies(func(a *Atom) bool { return a.Rel == "" && a.Val && a.B.Kind == "field" && strings.Contains(strings.ToLower(cn(a.B.Field)), "sync") }) {
 				okOrder = false
 			}
 		}
@@ -481,7 +481,7 @@ func c17R4(c *Ctx) {
 	// cache update after commit nil, with the value written by the UPDATE
 	n := 0
 	for _, cl := range s.cacheCalls(p, fn) {
-		m := cl.Common().Method.Name()
+		m := cn(cl.Common().Method)
 		if !strings.HasPrefix(m, "SetNext") && !strings.HasPrefix(m, "IncrNext") {
 			continue
 		}
